@@ -4,7 +4,8 @@ from pyvc.spec import record, contract, define, ghost, opaque_fn
 F = "jade/jobs/async_cli_command.py"
 opaque_fn("get_directory_size_bytes", "Path")
 
-record("Popen", fields={"returncode": "Opt[int]", "pid": "Opaque", "g_argv": "Opaque", "g_env": "Dict[Name,Opaque]"}, check_attrs=False)
+record("Popen", fields={"returncode": "Opt[int]", "pid": "Opaque", "g_argv": "Opaque", "g_env": "Dict[Name,Opaque]",
+                        "g_stdout": "Ref[FileObj]", "g_stderr": "Ref[FileObj]"}, check_attrs=False)
 record("FileObj", fields={"g_path": "Opaque"}, check_attrs=False)
 record("AsyncCliCommand", file=F, bases=["AsyncJob"],
        aliases={"_return_code": "return_code"},
@@ -22,10 +23,13 @@ contract("Popen.poll", kind="assumed", params=[("self", "Ref[Popen]")], returns=
          modifies=["self.returncode"], note="subprocess.Popen.poll (T-proc): None while running, then the exit status (stable)")
 contract("subprocess.Popen", kind="assumed", fresh_result=True,
          params=[("cmd", "Opaque"), ("env", "Dict[Name,Opaque]"), ("stdout", "Ref[FileObj]"), ("stderr", "Ref[FileObj]")], returns="Ref[Popen]",
-         ensures=["ghost.popens == old(ghost.popens) + 1", "result.g_argv == cmd and result.g_env == env", "isnone(result.returncode)"],
-         modifies=["ghost.popens", "Popen.returncode", "Popen.pid", "Popen.g_argv", "Popen.g_env"], note="subprocess.Popen (T-proc): starts exactly one process")
+         ensures=["ghost.popens == old(ghost.popens) + 1", "ghost.runs == old(ghost.runs) + 1", "result.g_argv == cmd and result.g_env == env", "isnone(result.returncode)",
+                  "result.g_stdout == stdout and result.g_stderr == stderr",
+                  "unchanged(Popen.returncode, result) and unchanged(Popen.g_argv, result) and unchanged(Popen.g_env, result)"],
+         modifies=["ghost.popens", "ghost.runs", "Popen.returncode", "Popen.pid", "Popen.g_argv", "Popen.g_env", "Popen.g_stdout", "Popen.g_stderr"],
+         note="subprocess.Popen (T-proc): starts exactly one process with this argv, environment and stdio")
 contract("open", kind="assumed", fresh_result=True, params=[("path", "Opaque"), ("mode", "Opaque", '"r"')], returns="Ref[FileObj]",
-         ensures=["result.g_path == path"], modifies=["FileObj.g_path"], note="builtin open (T-fs)")
+         ensures=["result.g_path == path", "unchanged(FileObj.g_path, result)"], modifies=["FileObj.g_path"], note="builtin open (T-fs)")
 contract("FileObj.close", kind="assumed", params=[("self", "Ref[FileObj]")], note="file close")
 contract("Opaque.copy", kind="assumed", params=[("self", "Opaque")], returns="Dict[Name,Opaque]", fresh_result=True,
          ensures=["result == uf('environ_copy', 'Dict[Name,Opaque]', self)"], note="os.environ.copy()")
@@ -33,10 +37,11 @@ contract("Opaque.copy", kind="assumed", params=[("self", "Opaque")], returns="Di
 contract("ResultsAggregator.append", kind="assumed",
          params=[("output_dir", "Opaque"), ("result", "Ref[Result]"), ("batch_id", "Opt[Opaque]", "None")],
          ensures=["len(ghost.rows) == old(len(ghost.rows)) + 1 and ghost.rows[old(len(ghost.rows))] == result",
+                  "ghost.last_append_dir == output_dir and ghost.last_append_batch == batch_id",
                   "forall(i, range(old(len(ghost.rows))), ghost.rows[i] == old(ghost.rows)[i])",
                   "forall(x, Name, (x in ghost.collected) == (x in old(ghost.collected) or x == result.name))",
                   "forall(x, Name, (x in ghost.collected_failed) == (x in old(ghost.collected_failed) or (x == result.name and result.return_code != 0)))"],
-         modifies=["ghost.rows", "ghost.collected", "ghost.collected_failed"],
+         modifies=["ghost.rows", "ghost.collected", "ghost.collected_failed", "ghost.last_append_dir", "ghost.last_append_batch"],
          note="classmethod: appends one row to the node (batch_id) or consolidated results file under its lock (C08)")
 
 # properties / trivial accessors executed from the real source
@@ -49,4 +54,118 @@ define("Inv_cli", ["s"], """(
     and s.g_done == (s._is_complete or (not isnone(s._pipe) and not s._is_pending))
     and implies(s._is_pending, not isnone(s._pipe) and not isnone(s._start_time) and not isnone(s._stdout_fp) and not isnone(s._stderr_fp))
     and (isnone(s._pipe) == (s.g_launched == 0)) and s.g_launched <= 1
-    and implies(s.g_canceled, s._is_complete) and not s.g_is_batch)""")
+    and s.g_canceled == s._is_complete and not s.g_is_batch and implies(s.g_done, not isnone(s.return_code)))""")
+
+# ---- the methods (C19; refinement of the AsyncJob interface contracts assumed by JobQueue: C02, C04, C12) ------------------
+from pyvc.spec import opaque_global
+opaque_global("JOBS_OUTPUT_DIR", "JOBS_STDIO_DIR", "RESULTS_DIR", "EVENT_CATEGORY_RESOURCE_UTIL", "EVENT_NAME_BYTES_CONSUMED")
+opaque_fn("shlex.split", "StructuredLogEvent", "log_event")
+ABSTRACT = ["self.g_done", "self.g_launched", "self.g_canceled", "self.blocking", "self.cancel_on_blocking_job_failure", "self.name", "self.g_is_batch"]
+G_DONE = "self.g_done == (self._is_complete or (not isnone(self._pipe) and not self._is_pending))"
+FIN, CAN = "JobCompletionStatus.FINISHED.value", "JobCompletionStatus.CANCELED.value"
+
+contract("AsyncCliCommand.__init__", file=F, qualname="AsyncCliCommand.__init__",
+         params=[("self", "Ref[AsyncCliCommand]"), ("job", "Ref[JadeJob]"), ("cmd", "Opaque"), ("output", "Opaque"), ("batch_id", "Opaque"),
+                 ("is_manager_node", "bool"), ("hpc_job_id", "Opt[Name]")],
+         returns="Ref[AsyncCliCommand]",
+         ensures=["self._job == job and self._cli_cmd == cmd and self._output == uf('Path/', 'Opaque', output) and self._batch_id == batch_id",
+                  "self._is_manager_node == is_manager_node and self._hpc_job_id == hpc_job_id",
+                  "isnone(self._pipe) and not self._is_pending and not self._is_complete and isnone(self._return_code)",
+                  "Inv_cli(self)"],
+         ghost_ensures=["self.name == job.name and self.blocking == job.blocked_by and self.cancel_on_blocking_job_failure == job.cancel_on_blocking_job_failure",
+                        "self.g_launched == 0 and not self.g_canceled and not self.g_done and not self.g_is_batch"],
+         modifies=["self._job", "self._cli_cmd", "self._output", "self._pipe", "self._is_pending", "self._start_time", "self._return_code", "self._is_complete",
+                   "self._batch_id", "self._is_manager_node", "self._hpc_job_id", "self._stdout_fp", "self._stderr_fp"] + ABSTRACT)
+
+# the launch, exactly as configured (C19)
+define("STDIO", ["s", "ext"], "s._output / JOBS_STDIO_DIR / (typed(s._job.name, 'Str') + ext)")
+contract("AsyncCliCommand.run", file=F,
+         params=[("self", "Ref[AsyncCliCommand]")], returns="Enum[Status]",
+         locals={"env": "Dict[Name,Opaque]"}, strings="text",
+         # JADE's own assert `self._pipe is None`: a job object is run at most once (C02); a canceled job is never started (C04)
+         requires=["Inv_cli(self)", "self.g_launched == 0", "not self.g_canceled"],
+         ensures=[
+             "result == Status.GOOD",
+             # interface clauses of AsyncJob.run
+             "self.g_launched == old(self.g_launched) + 1", "ghost.runs == old(ghost.runs) + 1", "not self.g_done",
+             # exactly one process, started with the configured command split by shlex (POSIX rules unless on Windows) ...
+             "ghost.popens == old(ghost.popens) + 1",
+             "val(self._pipe).g_argv == uf('shlex.split/posix', 'Opaque', self._cli_cmd, 'win' not in sys.platform)",
+             # ... in the caller's environment plus the two JADE variables ...
+             "val(self._pipe).g_env['JADE_RUNTIME_OUTPUT'] == self._output and val(self._pipe).g_env['JADE_JOB_NAME'] == typed(self._job.name, 'Opaque')",
+             "'JADE_RUNTIME_OUTPUT' in val(self._pipe).g_env and 'JADE_JOB_NAME' in val(self._pipe).g_env",
+             "forall(k, Name, implies(k != 'JADE_RUNTIME_OUTPUT' and k != 'JADE_JOB_NAME', (k in val(self._pipe).g_env) == (k in os.environ) "
+             "and implies(k in val(self._pipe).g_env, val(self._pipe).g_env[k] == os.environ[k])))",
+             # ... with its own stdout / stderr files
+             "val(self._stdout_fp).g_path == STDIO(self, '.o') and val(self._stderr_fp).g_path == STDIO(self, '.e')",
+             "val(self._pipe).g_stdout == val(self._stdout_fp) and val(self._pipe).g_stderr == val(self._stderr_fp)",
+             "self._is_pending and not self._is_complete",
+             "Inv_cli(self)",
+             "ghost.rows == old(ghost.rows)",
+         ],
+         ghost_ensures=["self.g_launched == old(self.g_launched) + 1", G_DONE],
+         modifies=["self._start_time", "self._stdout_fp", "self._stderr_fp", "self._pipe", "self._is_pending", "self.g_launched", "self.g_done",
+                   "ghost.popens", "ghost.runs", "Popen.returncode", "Popen.pid", "Popen.g_argv", "Popen.g_env", "Popen.g_stdout", "Popen.g_stderr", "FileObj.g_path"])
+
+# the result row (C19): the job's name, the process's real exit status, FINISHED, the node's HPC job id; only the manager node writes it
+contract("AsyncCliCommand._complete", file=F,
+         params=[("self", "Ref[AsyncCliCommand]")],
+         locals={"exec_time_s": "real"},
+         requires=["not isnone(self._pipe) and not isnone(val(self._pipe).returncode)",
+                   "not isnone(self._stdout_fp) and not isnone(self._stderr_fp) and not isnone(self._start_time)"],
+         ensures=[
+             "self._return_code == val(self._pipe).returncode and val(self._pipe).returncode == old(val(self._pipe).returncode)",
+             "implies(not self._is_manager_node, ghost.rows == old(ghost.rows) and ghost.collected == old(ghost.collected))",
+             "implies(self._is_manager_node, len(ghost.rows) == old(len(ghost.rows)) + 1 and forall(i, range(old(len(ghost.rows))), ghost.rows[i] == old(ghost.rows)[i]))",
+             "implies(self._is_manager_node, ghost.rows[old(len(ghost.rows))].name == self._job.name "
+             "and ghost.rows[old(len(ghost.rows))].return_code == val(old(val(self._pipe).returncode)) "
+             f"and ghost.rows[old(len(ghost.rows))].status == {FIN} and ghost.rows[old(len(ghost.rows))].hpc_job_id == self._hpc_job_id)",
+             "implies(self._is_manager_node, ghost.last_append_dir == self._output and ghost.last_append_batch == self._batch_id)",
+             "implies(self._is_manager_node, forall(x, Name, (x in ghost.collected) == (x in old(ghost.collected) or x == self._job.name)))",
+         ],
+         modifies=["self._return_code", "ghost.rows", "ghost.collected", "ghost.collected_failed", "ghost.last_append_dir", "ghost.last_append_batch",
+                   "Result.name", "Result.return_code", "Result.status", "Result.exec_time_s", "Result.completion_time", "Result.hpc_job_id"])
+ghost("last_append_dir", "Opaque")
+ghost("last_append_batch", "Opt[Opaque]")
+
+contract("AsyncCliCommand.is_complete", file=F,
+         params=[("self", "Ref[AsyncCliCommand]")], returns="bool",
+         requires=["Inv_cli(self)",
+                   "not self.g_done or self.g_canceled",          # interface precondition (a finished node-level job is not polled again: JADE asserts on it)
+                   "self.g_launched >= 1 or self.g_canceled"],    # only jobs that were run or canceled are polled (JobQueue: outstanding jobs)
+         ensures=[
+             # interface clauses of AsyncJob.is_complete
+             "result == self.g_done", "implies(old(self.g_done), self.g_done)", "implies(result, not isnone(self.return_code))",
+             "self.g_launched == old(self.g_launched) and self.g_canceled == old(self.g_canceled)",
+             "Inv_cli(self)",
+             # complete exactly when it was canceled or the process has exited; the row is written at that moment, once
+             "implies(not old(self._is_complete), result == (not isnone(val(self._pipe).returncode)))",
+             "implies(result and not old(self.g_done), self.return_code == val(self._pipe).returncode)",
+             "implies(not result or old(self.g_done) or not self._is_manager_node, ghost.rows == old(ghost.rows))",
+             "implies(result and not old(self.g_done) and self._is_manager_node, len(ghost.rows) == old(len(ghost.rows)) + 1 "
+             "and ghost.rows[old(len(ghost.rows))].name == self._job.name and ghost.rows[old(len(ghost.rows))].return_code == val(val(self._pipe).returncode) "
+             f"and ghost.rows[old(len(ghost.rows))].status == {FIN} and ghost.rows[old(len(ghost.rows))].hpc_job_id == self._hpc_job_id)",
+         ],
+         ghost_ensures=[G_DONE],
+         modifies=["self._is_pending", "self._return_code", "self.g_done", "Popen.returncode", "ghost.rows", "ghost.collected", "ghost.collected_failed",
+                   "ghost.last_append_dir", "ghost.last_append_batch",
+                   "Result.name", "Result.return_code", "Result.status", "Result.exec_time_s", "Result.completion_time", "Result.hpc_job_id"])
+
+contract("AsyncCliCommand.cancel", file=F,
+         params=[("self", "Ref[AsyncCliCommand]")],
+         requires=["Inv_cli(self)"],
+         ensures=[
+             # interface clauses of AsyncJob.cancel
+             "self.g_canceled and self.g_done", "self.return_code == 1", "self.g_launched == old(self.g_launched)",
+             "subset(old(ghost.collected), ghost.collected) and subset(old(ghost.collected_failed), ghost.collected_failed)",
+             "Inv_cli(self)", "ghost.popens == old(ghost.popens)",
+             # C04/C19: the manager node records one 'canceled' row with a non-zero code under the job's name
+             "implies(not self._is_manager_node, ghost.rows == old(ghost.rows))",
+             "implies(self._is_manager_node, len(ghost.rows) == old(len(ghost.rows)) + 1 and ghost.rows[old(len(ghost.rows))].name == self._job.name "
+             f"and ghost.rows[old(len(ghost.rows))].return_code == 1 and ghost.rows[old(len(ghost.rows))].status == {CAN} "
+             "and ghost.rows[old(len(ghost.rows))].hpc_job_id == self._hpc_job_id)",
+         ],
+         ghost_ensures=["self.g_canceled", G_DONE],
+         modifies=["self._return_code", "self._is_complete", "self.g_canceled", "self.g_done", "ghost.rows", "ghost.collected", "ghost.collected_failed",
+                   "ghost.last_append_dir", "ghost.last_append_batch",
+                   "Result.name", "Result.return_code", "Result.status", "Result.exec_time_s", "Result.completion_time", "Result.hpc_job_id"])
